@@ -345,12 +345,12 @@ def run(ctx):
     ctx.sample({"config": descr[-1]["config"], "schedule": descr[-1]["schedule"]})
 
     # 3. exhaustive exploration of small configurations
-    t_end = time.time() + (12 if not ctx.thorough else 400)
-    max_edges = 3000 if not ctx.thorough else 330000
+    t_end = time.time() + (12 if not ctx.thorough else 300)
+    max_edges = 3000 if not ctx.thorough else 220000
     complete = []
     confs = small_configs()
     if ctx.thorough:
-        confs += [gen_config(rng) for _ in range(100)]
+        confs += [gen_config(rng) for _ in range(80)]
     nedges = 0
     for ci, cfg in enumerate(confs):
         share = time.time() + max(2.0, (t_end - time.time()) / max(1, len(confs) - ci))
